@@ -188,7 +188,7 @@ let fiber_case p idem cl0 nplan outs impl =
    The driver PROPOSES certificates (how the frames split into fibers, which plan / outcome
    stream each fiber had, for C13 a schedule of `execute`); the extracted checkers decide. *)
 type e2e_rec = { api : string; idem : bool; pol : policy; spec : (int * int) option; cl0 : consistency;
-                 nn : int; down : n list; pg : int; t0 : n; tr : n; mg : n; res : string; co : n option; tmo : int option;
+                 nn : int; down : n list; pg : int; t0 : n; tr : n; mg : n; res : string; co : n option; tmo : int option; sm : n;
                  frs : frame list }
 
 let strip1 s = String.sub s 1 (String.length s - 1)
@@ -223,6 +223,7 @@ let parse_record (tok : string) : e2e_rec =
                 | _ -> failwith "bad spec");
       cl0 = cl_of (g "cl"); nn = hex "n"; down = nlist_of_string (g "down"); pg = hex "pg";
       t0 = n_of_hex (g "t0"); tr = n_of_hex (g "tr"); mg = n_of_hex (g "mg"); res = g "res";
+      sm = (match List.assoc_opt "sm" tbl with Some x -> n_of_hex x | None -> n_of_int 20000);
       tmo = (match List.assoc_opt "to" tbl with Some "-" | None -> None | Some t -> Some (int_of_string ("0x" ^ t)));
       co = (match List.assoc_opt "co" tbl with Some "-" | None -> None | Some c -> Some (n_of_hex c));
       frs = (if g "fr" = "-" then [] else List.map frame_of_string (String.split_on_char ',' (g "fr"))) }
@@ -340,7 +341,7 @@ let timeout_accepted (r : e2e_rec) : bool =
     let specn = Option.map (fun (m, _) -> nat_of_int m) r.spec in
     let max = match gate r with Some m -> m | None -> 0 in
     List.exists (fun (cs, assign) ->
-        check_timeout r.pol r.idem specn r.cl0 nodes r.down cs assign r.frs r.t0 (n_of_int (ms * 1000)) r.tr r.mg)
+        check_timeout r.pol r.idem specn r.cl0 nodes r.down cs assign r.frs r.t0 (n_of_int (ms * 1000)) r.tr r.mg r.sm)
       (multi_certs r max)
 
 let rec_summary (r : e2e_rec) =
@@ -354,8 +355,10 @@ let e2e6_record (tok : string) : string =
   | None ->
     let spec = Option.map (fun (m, _) -> nat_of_int m) r.spec in
     if r.res = "timeout" && timeout_accepted r then "ok"
+    (* a frame OTHER than the first arrived more than the margin after the call gave up: sent again
+       after the timeout (prop_timeout_frames; a single late frame is not a re-send: diff below) *)
     else if r.res = "timeout" && r.tmo <> None && not (prop_timeout_frames r.tr r.mg r.frs)
-    then "viol e2e frame-after-the-timeout " ^ rec_summary r        (* C06_e2e_timeout_frames *)
+    then "viol e2e frame-after-the-timeout " ^ rec_summary r
     else if not (prop_frames r.pol r.idem spec (nat_of_int r.nn) r.frs)
     then "viol e2e frames-violate-property " ^ rec_summary r
     else "diff e2e unexpected-result " ^ rec_summary r
